@@ -6,6 +6,7 @@ import (
 	"go/token"
 	"go/types"
 	"math/big"
+	"sort"
 	"strings"
 )
 
@@ -447,6 +448,104 @@ func checkC14(p *Prog, r *Report) {
 			return true
 		})
 		r.Check(okWrite && nWrite == 1, "writeProcess: writes exactly what was read", p.Pos(f.Body.Pos()), "Conn.Write(pktBuf[:n])", "the write does not send exactly the bytes of the one buffered frame that was read")
+	}
+	// ---- R14.8 one I/O buffer per goroutine -------------------------------------------------------------
+	r.Rule("R14.8", "A byte buffer that a goroutine reads packets into (readStreamingPacket, the buffered reads of the active TCP connection, the packet conn's reader) is used by that goroutine only: a buffer declared outside a 'go' literal is not used both inside it and outside it (or inside two of them) — a shared buffer lets one direction overwrite the other's packet.", 3)
+	nBuf := 0
+	for _, f := range p.AllFuncs {
+		if f.Pkg != p.Ice || f.Body == nil || f.Decl == nil {
+			continue
+		}
+		// byte-slice locals of the declaration made by make([]byte, ...)
+		var bufs []types.Object
+		var scanDefs func(g *Func)
+		scanDefs = func(g *Func) {
+			walkBody(g, func(x ast.Node) bool {
+				as, ok := x.(*ast.AssignStmt)
+				if !ok || as.Tok != token.DEFINE || len(as.Lhs) != 1 || len(as.Rhs) != 1 {
+					return true
+				}
+				c, ok := unparen(as.Rhs[0]).(*ast.CallExpr)
+				if !ok || p.CalleeName(c) != "builtin.make" || len(c.Args) < 2 {
+					return true
+				}
+				if sl, ok := p.TypeOf(c.Args[0]).(*types.Slice); !ok || typeStr(sl.Elem()) != "byte" {
+					return true
+				}
+				if id, ok := as.Lhs[0].(*ast.Ident); ok {
+					if o := p.ObjOf(id); o != nil {
+						bufs = append(bufs, o)
+					}
+				}
+				return true
+			})
+			for _, l := range g.Lits {
+				scanDefs(l)
+			}
+		}
+		scanDefs(f)
+		if len(bufs) == 0 {
+			continue
+		}
+		// which goroutine context uses each buffer: "" = the declaration's own flow, or the go-literal's name
+		goLits := map[*Func]bool{}
+		var markGo func(g *Func)
+		markGo = func(g *Func) {
+			walkBody(g, func(x ast.Node) bool {
+				if gs, ok := x.(*ast.GoStmt); ok {
+					if lit, ok := unparen(gs.Call.Fun).(*ast.FuncLit); ok {
+						if lf := p.ByLit[lit]; lf != nil {
+							goLits[lf] = true
+						}
+					}
+				}
+				return true
+			})
+			for _, l := range g.Lits {
+				markGo(l)
+			}
+		}
+		markGo(f)
+		ctxOf := func(g *Func) string {
+			for x := g; x != nil; x = x.Parent {
+				if goLits[x] {
+					return x.Name
+				}
+			}
+			return ""
+		}
+		for _, b := range bufs {
+			users := map[string]bool{}
+			var scanUses func(g *Func)
+			scanUses = func(g *Func) {
+				walkBody(g, func(x ast.Node) bool {
+					if id, ok := x.(*ast.Ident); ok && p.Info.Uses[id] == b {
+						users[ctxOf(g)] = true
+					}
+					return true
+				})
+				for _, l := range g.Lits {
+					scanUses(l)
+				}
+			}
+			scanUses(f)
+			if len(users) == 0 {
+				continue
+			}
+			nBuf++
+			var us []string
+			for u := range users {
+				if u == "" {
+					u = f.Name
+				}
+				us = append(us, u)
+			}
+			sort.Strings(us)
+			r.Check(len(users) == 1, "buffer "+b.Name()+" of "+f.Name+" used by one goroutine", p.Pos(b.Pos()), strings.Join(us, ", "), "the buffer is used by "+strings.Join(us, " and ")+": two goroutines read packets into (or write packets from) the same memory, so one direction's packet is overwritten by the other's before it is framed or delivered")
+		}
+	}
+	if nBuf == 0 {
+		r.Fail("I/O buffers", "", "no make([]byte, n) buffer found (rule instance lost)")
 	}
 }
 
